@@ -1,7 +1,7 @@
 """C19 - Editing or cloning the XML tree affects exactly the nodes named."""
 import itertools
 
-from harness import common
+from harness import common, wsdlkit, xmlread
 
 ID = "C19"
 LEAN_MODULES = ["SudsModel.Props.C19"]
@@ -534,6 +534,35 @@ def doctor_rule_reused(ctx):
                      [facts, len(set(ids))], [[[1, True, 2, "urn:want"]] * 3, 3])
 
 
+def imported_schema_tree(ctx):
+    """wsdl.Import.import_schema attaches the imported schema document's tree to the importing WSDL's <types>: the
+    tree arrives as it was parsed - a default namespace declared on the (prefixed) schema root still governs the
+    unprefixed type references inside it."""
+    xsd = ('<xs:schema xmlns:xs="http://www.w3.org/2001/XMLSchema" xmlns="urn:imp" targetNamespace="urn:imp" '
+           'elementFormDefault="qualified"><xs:element name="f" type="T"/><xs:complexType name="T"><xs:sequence>'
+           '<xs:element name="a" type="xs:string"/><xs:element name="u" type="U" minOccurs="0"/></xs:sequence>'
+           '</xs:complexType><xs:complexType name="U"><xs:sequence><xs:element name="n" type="xs:int"/></xs:sequence>'
+           '</xs:complexType></xs:schema>').encode()
+    w = wsdlkit.wsdl_doc("", style="document", in_parts=[("p", "element", "i:f")]).decode()
+    w = w.replace("<wsdl:types>", '<wsdl:import namespace="urn:imp" location="suds://imp.xsd"/><wsdl:types>', 1)
+    # (the WSDL has a default namespace of its own: the one a reference without prefix falls to when the schema's goes)
+    w = w.replace("<wsdl:definitions ", '<wsdl:definitions xmlns:i="urn:imp" xmlns="http://schemas.xmlsoap.org/wsdl/" ', 1)
+    ctx.case(("import-schema-tree",), True)
+    try:
+        c = wsdlkit.client(w.encode(), extra_docs={"imp.xsd": xsd}, nosend=True)
+        env = wsdlkit.envelope_bytes(c.service.f("va", {"n": 5}))
+        fn = xmlread.find1(xmlread.find1(xmlread.parse(env), "Body"), "f")
+        got = [list(fn["name"]), [[list(k["name"]), None if k["children"] else k.get("text"),
+                                   [[list(g["name"]), g.get("text")] for g in k["children"]]]
+                                  for k in fn["children"]]]
+    except Exception as e:
+        got = "%s: %s" % (type(e).__name__, str(e)[:200])
+    want = [["urn:imp", "f"], [[["urn:imp", "a"], "va", []], [["urn:imp", "u"], None, [[["urn:imp", "n"], "5"]]]]]
+    if got != want:
+        ctx.fail("a schema document attached by wsdl:import does not mean what it meant as a document",
+                 {"stream": "import-schema-tree"}, got, want)
+
+
 def aliased_nodes(ctx):
     """Edits go by the object given, also in states the element API lets a caller build that are not trees: a node
     appended under two parents (append does not detach), two attribute objects with one qualified name."""
@@ -692,6 +721,7 @@ def run(ctx):
     attribute_histories(ctx)
     doctor_rule_reused(ctx)
     aliased_nodes(ctx)
+    imported_schema_tree(ctx)
     document_lookups(ctx)
     if runs:
         ctx.sample({"forest": runs[0]["forest"], "ops": runs[0]["ops"][:4]})
